@@ -168,7 +168,7 @@ func keyBoundary() map[string]*big.Int {
 }
 
 func TestVX_C12(t *testing.T) {
-	r := vx.Begin("C12", "keys", "GenerateKey on every candidate stream of <=3 rejected candidates from {0,n-1,n,n+1,2^256-1} followed by one of {1,2,n-2,seeded} (d, bytes consumed and [d]G compared with sm2ref); TestPrivateKey on boundary values and n-1 with byte i +-1 for every i (tails kept/zeroed/ff), lengths 0..40; DerivePublic on the same scalars and lengths 0,31,33; CheckOnCurve on [k]G for k in {1..16,n-1,seeded}, every single-bit flip of x and y, x+p encodings, (0,0), coordinates >= p, wrong lengths. Shape = (function, class)")
+	r := vx.Begin("C12", "keys", "GenerateKey on every candidate stream of <=3 rejected candidates from {0,n-1,n,n+1,2^256-1} followed by one of {1,2,n-2,seeded} (d, bytes consumed and [d]G compared with sm2ref); TestPrivateKey on boundary values and n-1 with byte i +-1 for every i (tails kept/zeroed/ff), lengths 0..40; DerivePublic on the same scalars and lengths 0,31,33; CheckOnCurve on [k]G for k in {1..16,n-1,seeded}, every single-bit flip of x and y, off-curve pairs whose y^2 differs from x^3+ax+b only in structured bit sets of the value or of its Montgomery form (single bits, high/low limb halves), x+p encodings, (0,0), coordinates >= p, wrong lengths. Shape = (function, class)")
 	defer r.End()
 	selfCheck()
 	if raw, ok := vx.Replay("keys"); ok {
@@ -277,6 +277,13 @@ func TestVX_C12(t *testing.T) {
 			fy := append([]byte{}, y...)
 			fy[bit/8] ^= 1 << uint(bit%8)
 			run(c12case{"oncurve", hexs(x, fy), fmt.Sprintf("k%d:flipy%d", ki, bit)})
+		}
+	}
+	for qi, q := range []sm2ref.Point{sm2ref.G(), sm2ref.BaseMul(modN(bi(vx.Fill("c12near", 32))))} {
+		xs, ys, names := sm2ref.NearCurvePoints(q)
+		for i := range xs {
+			run(c12case{"oncurve", hexs(b32(xs[i]), b32(ys[i])), fmt.Sprintf("near%d:%s", qi, names[i])})
+			run(c12case{"oncurve", hexs(b32(ys[i]), b32(xs[i])), fmt.Sprintf("near%d:%s:swapped", qi, names[i])})
 		}
 	}
 	for pi, P := range sm2ref.SmallXPoints(6) {
